@@ -72,6 +72,15 @@ def atomic_protocol(ctx, rule, model, fi, cfg, rd, protected, label):
                 if any(c.id in dom[r.node.id] for c in closes):
                     good = True
         ctx.check(rule, key, good, "the temporary file is not completely written and closed before it is renamed", fi, r.call)
+        # a leftover temporary file of a killed run must not matter: the mode has to create-or-truncate
+        for w in srcs:
+            if w.mode is not None and ("x" in w.mode or "a" in w.mode or "+" in w.mode and "w" not in w.mode):
+                ctx.bad(rule, f"{key}::temporary file is created or truncated whatever a killed run left behind",
+                        f"`{short(w.call)}` opens the temporary file with mode {w.mode!r}: "
+                        + ("a leftover file makes every later checkpoint raise FileExistsError" if "x" in w.mode else
+                           "a leftover partial file is kept and extended"), fi, w.call)
+            elif w.mode is not None:
+                ctx.ok(rule, f"{key}::temporary file is created or truncated whatever a killed run left behind", f"mode {w.mode!r}", fi, w.call)
         if good:
             n_ok += 1
         # tmp name differs from final name
@@ -238,3 +247,61 @@ def run(ctx):
 
 def _inside(node, container):
     return any(x is node for x in ast.walk(container))
+
+
+def r24_4(ctx, m):
+    """in-process state that depends on the iteration is not part of the checkpoint"""
+    C = m.cls(MOD, "OptimizeVI")
+    ctx.saw_class(C)
+    ctx.rule("R24.4", "the driver object keeps no iteration-dependent state outside the checkpoint: methods of OptimizeVI other than "
+                      "__init__ do not store values derived from their per-call arguments into instance attributes (a resumed "
+                      "process would rebuild them from later arguments than the uninterrupted one); module functions do not keep "
+                      "global caches", floor=8)
+    mod = m.module(MOD)
+    for name, fi in sorted(C.methods.items()):
+        if name == "__init__":
+            continue
+        ctx.saw_func(fi)
+        cfg = cfg_of(fi)
+        rd = cfg.reaching_defs(fi.params())
+        params = set(fi.params()[1:])
+        if fi.node.args.vararg:
+            params.add(fi.node.args.vararg.arg)
+        if fi.node.args.kwarg:
+            params.add(fi.node.args.kwarg.arg)
+        params |= {a.arg for a in fi.node.args.kwonlyargs}
+        bad = None
+        for n in cfg.nodes:
+            if n.kind != "stmt" or not isinstance(n.ast, (ast.Assign, ast.AugAssign, ast.AnnAssign)):
+                continue
+            tgts = n.ast.targets if isinstance(n.ast, ast.Assign) else [n.ast.target]
+            for t in tgts:
+                base = t
+                while isinstance(base, ast.Subscript):
+                    base = base.value
+                if isinstance(base, ast.Attribute) and isinstance(base.value, ast.Name) and base.value.id == "self":
+                    val = inline_at(cfg, rd, n.id, n.ast.value, depth=5) if n.ast.value is not None else None
+                    names = {x.id for x in ast.walk(val) if isinstance(x, ast.Name)} if val is not None else set()
+                    dep = sorted(names & params)
+                    if dep:
+                        bad = (n.ast, base.attr, dep)
+        # mutating calls on attributes: self.X.append(...), self.X.update(...)
+        for nn, c in find_nodes(cfg, lambda q: isinstance(q, ast.Call) and isinstance(q.func, ast.Attribute) and q.func.attr in
+                                ("append", "extend", "update", "setdefault", "add", "insert", "pop", "clear")
+                                and isinstance(q.func.value, ast.Attribute) and isinstance(q.func.value.value, ast.Name) and q.func.value.value.id == "self"):
+            bad = bad or (c, c.func.value.attr, ["<mutating call>"])
+        ctx.check("R24.4", f"{fi.key}::keeps no per-call state on the instance", bad is None,
+                  None if bad is None else f"`{short(bad[0])}` stores a value derived from {bad[2]} in self.{bad[1]}; it survives into later "
+                  f"iterations of this process but is not written to the state file", fi, bad[0] if bad else None)
+    globs = [n for n in ast.walk(mod.tree) if isinstance(n, (ast.Global, ast.Nonlocal))]
+    caches = [d for f in ast.walk(mod.tree) if isinstance(f, ast.FunctionDef) for d in f.decorator_list if "cache" in src(d)]
+    ctx.check("R24.4", f"{mod.relpath}::no global / memoised state in the driver module", not globs and not caches,
+              "; ".join(short(x) for x in globs + caches) or None, mod.relpath)
+
+
+_run_c24b = run
+
+
+def run(ctx):  # noqa: F811
+    _run_c24b(ctx)
+    r24_4(ctx, ctx.model)
